@@ -35,6 +35,8 @@ CLIENT_CALLS: t.Dict[str, t.Tuple[t.Callable[[t.Any], t.Any], t.Callable[[int], 
     ),
     "ext": (lambda c: c.extended_request("1.2", b"v"), lambda i: L.ExtendedRequest(i, [], "1.2", b"v")),
     "unbind": (lambda c: c.unbind(), lambda i: L.UnbindRequest(0, [])),
+    # only used by the long scenarios: a 70 000-octet value
+    "ext_big": (lambda c: c.extended_request("1.2", b"V" * 70000), lambda i: L.ExtendedRequest(i, [], "1.2", b"V" * 70000)),
 }
 
 
@@ -55,6 +57,10 @@ SERVER_CALLS: t.Dict[str, t.Tuple[t.Callable[[t.Any, int], t.Any], t.Callable[[i
     "extresp": (lambda s, i: s.extended_response(i, "1.3", b"w"), lambda i: L.ExtendedResponse(i, [], _r(), "1.3", b"w")),
     "notice": (lambda s, i: s.extended_response(i, NOTICE, result_code=C.UNAVAILABLE), lambda i: L.ExtendedResponse(i, [], _r(C.UNAVAILABLE), NOTICE, None)),
     "unbind": (lambda s, i: s.unbind(), lambda i: L.UnbindRequest(0, [])),
+    "entry_big": (lambda s, i: s.search_result_entry(i, "cn=big", [L.PartialAttribute("jpegPhoto", [b"J" * 90000] + [b"v%d" % k for k in range(1700)])]),
+                  lambda i: L.SearchResultEntry(i, [], "cn=big", [L.PartialAttribute("jpegPhoto", [b"J" * 90000] + [b"v%d" % k for k in range(1700)])])),
+    "done_code200": (lambda s, i: s.search_result_done(i, L.LDAPResultCode(200), diagnostics_message="vendor"), lambda i: L.SearchResultDone(i, [], _r(L.LDAPResultCode(200), "vendor"))),
+    "extresp_code": (lambda s, i: s.extended_response(i, result_code=L.LDAPResultCode(32768)), lambda i: L.ExtendedResponse(i, [], _r(L.LDAPResultCode(32768)), None, None)),
 }
 REQ_KIND = {"BindRequest": "bind", "SearchRequest": "search", "ExtendedRequest": "ext"}
 
@@ -184,7 +190,7 @@ def step(w: World, ev: Ev, cuts: bool) -> t.Tuple[t.Optional[World], t.Optional[
         w2.qs2c.append((name, i))
         if name == "bind_sasl":
             w2.sasl += 1
-        if name == "entry":
+        if name in ("entry", "entry_big"):
             k, a, b = w2.srv_open[i]
             w2.srv_open[i] = (k, a + 1, b)
         elif name == "ref":
@@ -390,22 +396,22 @@ def long_scenarios() -> t.Iterator[t.Tuple[str, t.List[t.List[t.Any]]]]:
                 h.append(["flush", "s2c"])
                 ops = []
                 for k in range(n):
-                    kind = "search" if k % 3 != 2 else "ext"
+                    kind = "search" if k % 3 != 2 else ("ext" if k % 4 else "ext_big")
                     h.append(["c", kind])
-                    ops.append((nxt, kind))
+                    ops.append((nxt, "search" if kind == "search" else "ext"))
                     nxt += 1
                     if k % 4 == 3:
                         h.append(["d", "c2s", pattern])
                 h.append(["flush", "c2s"])
                 for i, kind in ops:
                     if kind == "search":
-                        h.append(["s", "entry", i])
+                        h.append(["s", "entry" if i % 5 else "entry_big", i])
                         if i % 2:
                             h.append(["s", "ref", i])
                 order = [i for i, _k in ops]
                 order = order[1::2] + order[0::2][::-1]
                 for j, i in enumerate(order):
-                    h.append(["s", "done" if dict(ops)[i] == "search" else "extresp", i])
+                    h.append(["s", ("done" if i % 3 else "done_code200") if dict(ops)[i] == "search" else ("extresp" if i % 2 else "extresp_code"), i])
                     if j % 5 == 4:
                         h.append(["d", "s2c", pattern])
                 h.append(["flush", "s2c"])
